@@ -64,6 +64,9 @@ type lexer struct {
 	// rule, so the generated parser tries both readings).
 	choices uint
 	nAmbig  int
+	// Lenient only: read backslash-quote inside literals as an escape (second
+	// attempt when the XPath reading of the literals does not parse)
+	litEscapes bool
 }
 
 func isXMLSpace(r rune) bool { return r == ' ' || r == '\t' || r == '\r' || r == '\n' }
@@ -143,13 +146,13 @@ func (l *lexer) peekAfterSpace(at int) (rune, rune) {
 }
 
 // operatorContext: by XPath 3.7, is a '*' / NCName here an operator?
-func (l *lexer) operatorContext() bool {
+func (l *lexer) operatorContext(couldBeOperator bool) bool {
 	p := l.prev
 	if p == nil {
 		return false
 	}
 	if p.k == tOp {
-		if p.s == "/" && l.mode == Lenient {
+		if p.s == "/" && l.mode == Lenient && couldBeOperator {
 			// ambiguous for the generated parser: try both readings
 			k := l.nAmbig
 			l.nAmbig++
@@ -174,6 +177,36 @@ var axisNames = map[string]bool{"ancestor": true, "ancestor-or-self": true, "att
 	"descendant-or-self": true, "following": true, "following-sibling": true, "namespace": true, "parent": true, "preceding": true,
 	"preceding-sibling": true, "self": true}
 var opNames = map[string]bool{"and": true, "or": true, "mod": true, "div": true}
+
+var hyphenated = []string{"ancestor-or-self", "descendant-or-self", "following-sibling", "preceding-sibling", "processing-instruction"}
+
+// lookalike: the generated lexer reads a name that differs from a hyphenated
+// keyword only at the hyphen positions (another non-letter name character
+// there) as that keyword - a known finding.  Returns the keyword or "".
+func lookalike(name string) string {
+	rs := []rune(name)
+	for _, k := range hyphenated {
+		ks := []rune(k)
+		if len(ks) != len(rs) {
+			continue
+		}
+		ok := true
+		for i := range ks {
+			if ks[i] == rs[i] {
+				continue
+			}
+			if ks[i] == '-' && !unicode.IsLetter(rs[i]) && nameChar(rs[i]) {
+				continue
+			}
+			ok = false
+			break
+		}
+		if ok {
+			return k
+		}
+	}
+	return ""
+}
 
 // reservedWord: the generated lexer turns these spellings into keyword
 // tokens, so they cannot be function names (or parts of them).
@@ -242,14 +275,10 @@ func (l *lexer) scan() (token, error) {
 			if l.rs[j] == r {
 				// a quote after a backslash: XPath ends the literal here; the
 				// generated lexer may also read an escape (both are tried)
-				if l.mode == Lenient && l.rs[j-1] == '\\' && j-1 > l.i {
-					k := l.nAmbig
-					l.nAmbig++
-					if k < 10 && l.choices&(1<<uint(k)) != 0 {
-						l.Features["backslash-in-literal"] = true
-						j++
-						continue
-					}
+				if l.mode == Lenient && l.rs[j-1] == '\\' && j-1 > l.i && l.litEscapes {
+					l.Features["backslash-in-literal"] = true
+					j++
+					continue
 				}
 				break
 			}
@@ -290,7 +319,7 @@ func (l *lexer) scan() (token, error) {
 		return token{tVar, q}, nil
 	case r == '*':
 		l.i++
-		if l.operatorContext() {
+		if l.operatorContext(true) {
 			return token{tOp, "*"}, nil
 		}
 		// "*:local" extension
@@ -316,7 +345,7 @@ func (l *lexer) scan() (token, error) {
 	case nameStart(r):
 		start := l.i
 		n := l.ncname()
-		if l.operatorContext() {
+		if l.operatorContext(opNames[n]) {
 			if opNames[n] {
 				return token{tOp, n}, nil
 			}
@@ -352,6 +381,15 @@ func (l *lexer) scan() (token, error) {
 			}
 		} else {
 			l.i = save
+		}
+		if k := lookalike(name); k != "" && k != name {
+			if l.mode == Strict {
+				return token{}, fmt.Errorf("known finding: name that looks like the keyword %s", k)
+			}
+			l.Features["keyword-lookalike"] = true
+			if a, b := l.peekAfterSpace(l.i); a == '(' || a == ':' && b == ':' {
+				name = k // read as the keyword, as the generated lexer does
+			}
 		}
 		a, b := l.peekAfterSpace(l.i)
 		if a == '(' {
@@ -452,14 +490,24 @@ type parser struct {
 // Parse parses text; err == nil means the string is an expression in the
 // given mode.  Features lists the lenient features that were used.
 func Parse(text string, mode Mode) (e *xast.Expr, features map[string]bool, err error) {
-	e, features, nAmbig, err := parseWith(text, mode, 0)
+	e, features, err = parseLit(text, mode, false)
+	if err != nil && mode == Lenient && strings.Contains(text, "\\") {
+		if e2, f2, err2 := parseLit(text, mode, true); err2 == nil {
+			return e2, f2, nil
+		}
+	}
+	return e, features, err
+}
+
+func parseLit(text string, mode Mode, litEscapes bool) (e *xast.Expr, features map[string]bool, err error) {
+	e, features, nAmbig, err := parseWith(text, mode, 0, litEscapes)
 	if err == nil || mode == Strict || nAmbig == 0 {
 		return e, features, err
 	}
 	// an attempt that fails early sees only some of the ambiguous points;
 	// later attempts may reveal more
 	for c := uint(1); c < 1<<uint(nAmbig) && c < 1<<10; c++ {
-		e2, f2, n2, err2 := parseWith(text, mode, c)
+		e2, f2, n2, err2 := parseWith(text, mode, c, litEscapes)
 		if err2 == nil {
 			return e2, f2, nil
 		}
@@ -470,8 +518,8 @@ func Parse(text string, mode Mode) (e *xast.Expr, features map[string]bool, err 
 	return nil, features, err
 }
 
-func parseWith(text string, mode Mode, choices uint) (e *xast.Expr, features map[string]bool, nAmbig int, err error) {
-	lx := &lexer{rs: []rune(text), mode: mode, Features: map[string]bool{}, choices: choices}
+func parseWith(text string, mode Mode, choices uint, litEscapes bool) (e *xast.Expr, features map[string]bool, nAmbig int, err error) {
+	lx := &lexer{rs: []rune(text), mode: mode, Features: map[string]bool{}, choices: choices, litEscapes: litEscapes}
 	p := &parser{lx: lx, mode: mode}
 	defer func() {
 		nAmbig = lx.nAmbig
